@@ -103,9 +103,10 @@ class ManualExecutor(Executor):
                    the callable is never run.
     """
 
-    def __init__(self, mc, mode="manual", label="b"):
+    def __init__(self, mc, mode="manual", label="b", forget=False):
         self.mc = mc
         self.mode = mode
+        self.forget = forget            # drop fn/args/future of finished items (like real pools do)
         self.lab = label
         self.items = []
         self.shutdowns = []
@@ -164,6 +165,8 @@ class ManualExecutor(Executor):
             self.mc.emit("base.end", b=self.lab, i=it.idx, out=("ok", brief(r)))
             f.set_result(r)
         self.mc.emit("base.resolved", b=self.lab, i=it.idx)
+        if self.forget:
+            it.fn = it.args = it.kwargs = it.future = None
         return True
 
     def run(self, i):
@@ -197,8 +200,10 @@ class ManualExecutor(Executor):
         self.mc.wait_until(lambda: len(self.items) > i)
         it = self.items[i]
         f = it.future
-        if not f.set_running_or_notify_cancel():
+        if f is None or not f.set_running_or_notify_cancel():
             it.state = "cancelled"
+            if self.forget:
+                it.fn = it.args = it.kwargs = it.future = None
             return False
         it.state = "done"
         if exc is not None:
@@ -208,7 +213,16 @@ class ManualExecutor(Executor):
             self.mc.emit("base.end", b=self.lab, i=i, out=("ok", brief(value)))
             f.set_result(value)
         self.mc.emit("base.resolved", b=self.lab, i=i)
+        if self.forget:
+            it.fn = it.args = it.kwargs = it.future = None
         return True
+
+    def forget_finished(self):
+        """drop every reference held for items whose future is finished or cancelled"""
+        for it in self.items:
+            f = it.future
+            if f is not None and f.done():
+                it.fn = it.args = it.kwargs = it.future = None
 
     def futures(self):
         return [it.future for it in self.items]
